@@ -1,0 +1,23 @@
+//go:build verif
+
+package ipv4
+
+// Contracts for the IPv4 header parser (properties C02, C14), checked by /verif/govc.
+//
+//@ func (*Header).Unmarshal
+//@   check safety
+//@   ensures [addr] result == nil ==> len(h.Src) == 16 && len(h.Dst) == 16
+//@   ensures [payload] result == nil ==> len(h.Payload) <= len(b) - 20
+//@   ensures [proto] result == nil ==> h.Protocol == int(b[9])
+//@   modifies *h
+//
+//@ func Parse
+//@   check safety
+//@   ensures result0 != nil
+//@   ensures [addr] result1 == nil ==> len(result0.Src) == 16 && len(result0.Dst) == 16
+//@   ensures [payload] result1 == nil ==> len(result0.Payload) <= len(b) - 20
+//@   modifies nothing
+//
+// Package invariant (established by the initialiser; nothing else writes these variables).
+//@ func init
+//@   ensures errHeaderTooShort != nil && errBufferTooShort != nil
